@@ -1,8 +1,10 @@
 import GB.Base.Proto
+import GB.C01.Driver
 namespace GB.C02
 open GB GB.Proto
 
-/-- stub: replaced when the C02 slice is built -/
-def handle : Handler := fun _ _ => "BAD c02 unimplemented"
+/-- Area c02 uses the same judge as c01 (trace-level C01+C02 specification, then replay through the
+    Forward LTS); only the generator differs (fault injection). -/
+def handle : Handler := GB.C01.judge
 
 end GB.C02
